@@ -204,6 +204,24 @@ def run_unit(u, workdir):
         res['reason'] = str(e)
         return res
     base = os.path.join(workdir, re.sub(r'[^A-Za-z0-9_.-]', '_', u['id']))
+    # memo: a unit whose generated source (it names the TU inside the build directory keyed by /repo/src, inst/ and tools/), prelude,
+    # entry, contracts and options are byte-identical to a decided earlier run is not solved again (units serve several properties).
+    # Only decided results (ok / fail) are kept; VERIF_NO_MEMO=1 disables it.
+    h = hashlib.sha256()
+    for part in (src, open(os.path.join(VERIF, 'contracts', 'prelude.c')).read(), open(os.path.join(VERIF, 'contracts', 'prelude.h')).read(),
+                 json.dumps([u['id'], entry, enforce, replace, u.get('cdefs', []), u.get('unwind'), u.get('flags', []), u.get('timeout', CBMC_TIMEOUT),
+                             u.get('expect_classes'), CBMC_MEM_GB, 'cbmc-6.11.0'])):
+        h.update(part.encode()); h.update(b'\0')
+    memo = os.path.join(cache_dir(), 'results', h.hexdigest()[:32] + '.json')
+    if not os.environ.get('VERIF_NO_MEMO') and os.path.exists(memo):
+        try:
+            old = json.load(open(memo))
+            if old.get('status') in ('ok', 'fail') and os.path.exists(old.get('gb', '')):
+                old['memo'] = True; old['props'] = u.get('props', [])
+                return old
+        except (ValueError, OSError):
+            pass
+    res['_memo'] = memo
     open(base + '.c', 'w').write(src)
     demap = names['funcs']
     res['function'] = demap.get(enforce, enforce)
@@ -289,6 +307,14 @@ def run_unit(u, workdir):
     res['wall_s'] = round(time.time() - t0, 2)
     res['gb'] = base + '.i.gb'
     res['cbmc_cmd'] = cb
+    memo = res.pop('_memo', None)
+    if memo:
+        try:
+            os.makedirs(os.path.dirname(memo), exist_ok=True)
+            tmp = memo + '.%d.tmp' % os.getpid()
+            json.dump(res, open(tmp, 'w')); os.replace(tmp, memo)
+        except OSError:
+            pass
     return res
 
 
@@ -321,4 +347,8 @@ def run_units(units, workdir, jobs=16):
     with ThreadPoolExecutor(jobs) as ex:
         list(ex.map(b, list(seen)))
     with ThreadPoolExecutor(jobs) as ex:
-        return list(ex.map(lambda u: run_unit(u, workdir), units))
+        def ru(u):
+            r = run_unit(u, workdir)
+            r.pop('_memo', None)
+            return r
+        return list(ex.map(ru, units))
